@@ -111,7 +111,7 @@ func (m *tmodel) trigger() (outl []tline) {
 }
 func (m *tmodel) close() { m.held = nil }
 
-var c15levels = []zerolog.Level{-128, -1, 0, 1, 3, 9, 11, 13, 127}
+var c15levels = []zerolog.Level{-128, -1, 0, 1, 3, 4, 5, 6, 7, 9, 11, 13, 127}
 
 func c15body(r *rng.R, id int) string {
 	switch r.Intn(12) {
